@@ -28,11 +28,18 @@ structure Fns (R C : Type) where
   arctan2 : R → R → R
   rpow : R → R → R
   pi : R
+  /-- numpy's `nan` (a junk value in exact arithmetic; never selected by the code's `np.where`) -/
+  nan : R
   natCast : Nat → R
   /-- Python `int()` applied to a non-negative float -/
   truncNat : R → Nat
   /-- storage rounding of `precision="single"` (identity in exact arithmetic) -/
   store32 : C → C
+
+/-- error classes the harness distinguishes -/
+inductive ErrKind where
+  | valueError | indexError | other
+deriving Repr, DecidableEq
 
 /-- complex double -/
 structure CF where
@@ -98,6 +105,7 @@ def FloatFns : Fns Float CF where
   arctan2 := Float.atan2
   rpow := Float.pow
   pi := 3.141592653589793
+  nan := 0.0 / 0.0
   natCast := Float.ofNat
   truncNat x := x.toUInt64.toNat
   store32 := CF.store32
